@@ -120,6 +120,21 @@ Proof.
   intros A a b. rewrite firstn_app, Nat.sub_diag, firstn_all. cbn. apply app_nil_r.
 Qed.
 
+Lemma take_n_firstn : forall l n, take_n l n = firstn (N.to_nat n) l.
+Proof.
+  induction l as [|x r IH]; intros n; cbn [take_n].
+  - rewrite firstn_nil. reflexivity.
+  - destruct (N.eqb_spec n 0) as [->|Hn]; [reflexivity|].
+    rewrite IH. replace (N.to_nat n) with (S (N.to_nat (n - 1))) by lia. reflexivity.
+Qed.
+Lemma drop_n_skipn : forall l n, drop_n l n = skipn (N.to_nat n) l.
+Proof.
+  induction l as [|x r IH]; intros n; cbn [drop_n].
+  - rewrite skipn_nil. reflexivity.
+  - destruct (N.eqb_spec n 0) as [->|Hn]; [reflexivity|].
+    rewrite IH. replace (N.to_nat n) with (S (N.to_nat (n - 1))) by lia. reflexivity.
+Qed.
+
 Lemma dec_literal_hdr : forall srv (plus : bool) s rest, fits_int64 s -> (plus = true -> srv = true) ->
   dec_literal srv (ch "{" :: dec_of_N (N.of_nat (length s)) ++ (if plus then [ch "+"] else []) ++
                    ch "}" :: CR_ :: LF_ :: s ++ rest) = DOk s rest.
@@ -131,7 +146,7 @@ Proof.
   destruct plus; [rewrite (Hp eq_refl)|destruct srv]; cbn [app];
     try change (b2n (ch "+") =? 43) with true;
     try change (b2n (ch "}") =? 43) with false; cbv iota;
-    rewrite dec_special_hit, dec_crlf_crlf, Nat2N.id, firstn_length_app, skipn_length_app;
+    rewrite dec_special_hit, dec_crlf_crlf, take_n_firstn, drop_n_skipn, Nat2N.id, firstn_length_app, skipn_length_app;
     reflexivity.
 Qed.
 
